@@ -4,6 +4,7 @@ import (
 	"context"
 	"encoding/json"
 	"fmt"
+	"net"
 	"strings"
 	"time"
 
@@ -83,6 +84,35 @@ func implDecodeTyped(kind string, b []byte) (obs decObs, val *codec.VEnv, perr s
 	return decObs{R: "ok", Env: raw}, v, ""
 }
 
+// rx is a long-lived real TCP transport over an in-memory connection (hook constructor) with a
+// small configured read limit: consecutive cases share it, as consecutive envelopes share a
+// connection; it is replaced after an error (a failed Decode may leave the stream decoder unusable).
+type rxState struct {
+	peer net.Conn
+	t     lime.Transport
+	n     int
+	bytes int
+}
+
+var rx *rxState
+
+const rxReadLimit = 16 * 1024
+
+func rxGet() *rxState {
+	if rx == nil {
+		a, c := pair.NewBufConnPair()
+		rx = &rxState{peer: a, t: lime.NewTCPTransportFromConn(c, true, &lime.TCPConfig{ReadLimit: rxReadLimit})}
+	}
+	return rx
+}
+
+func rxDrop() {
+	if rx != nil {
+		rx.peer.Close()
+		rx = nil
+	}
+}
+
 // implReceive passes the bytes through the real TCP transport's receive path (hook connection).
 func implReceive(b []byte) (obs decObs, val *codec.VEnv, perr string) {
 	defer func() {
@@ -90,17 +120,28 @@ func implReceive(b []byte) (obs decObs, val *codec.VEnv, perr string) {
 			obs = decObs{R: "panic"}
 			val = nil
 			perr = fmt.Sprint(r)
+			rxDrop()
 		}
 	}()
-	a, c := pair.NewBufConnPair()
-	defer a.Close()
-	defer c.Close()
-	t := lime.NewTCPTransportFromConn(c, true, nil)
-	a.Write(append(append([]byte{}, b...), '\n'))
+	if len(b) > rxReadLimit/2 {
+		rxDrop() // larger than the shared transport's limit allows for sure: use a fresh default one
+		a, c := pair.NewBufConnPair()
+		rx = &rxState{peer: a, t: lime.NewTCPTransportFromConn(c, true, nil)}
+		defer rxDrop()
+	}
+	st := rxGet()
+	st.n++
+	st.bytes += len(b) + 1
+	st.peer.Write(append(append([]byte{}, b...), '\n'))
 	ctx, cancel := context.WithTimeout(context.Background(), 10*time.Second)
 	defer cancel()
-	env, err := t.Receive(ctx)
+	env, err := st.t.Receive(ctx)
 	if err != nil {
+		// errors raised after the stream decoder consumed the value (envelope population) leave
+		// the connection usable; errors of the stream decoder itself may not
+		if strings.HasPrefix(err.Error(), "tcp transport:") {
+			rxDrop()
+		}
 		return decObs{R: "err"}, nil, err.Error()
 	}
 	v, err := codec.FromEnvelope(env)
